@@ -43,6 +43,8 @@ enum What {
     Target(usize),
     /// every combination of extra request settings through the generic dispatch of this game
     Extra(&'static str),
+    /// the HTTP game (Eco) over real loopback TCP: module entry point and generic dispatch
+    Eco,
 }
 
 fn targets() -> &'static Vec<Target> {
@@ -64,6 +66,7 @@ fn cases() -> Vec<(String, What)> {
     for id in ["teamfortress2", "counterstrike", "killingfloor", "minecraftjava", "minecraft", "minecraftbedrock", "crysiswars", "q3a", "mindustry"] {
         v.push((format!("every combination of extra request settings through the generic dispatch of '{id}'"), What::Extra(id)));
     }
+    v.push(("every accepted configuration through the HTTP game (eco::query_with_timeout and the generic dispatch of 'eco') over loopback".to_string(), What::Eco));
     v
 }
 
@@ -78,7 +81,7 @@ impl Prop for C18 {
          usize::MAX} = 625 configurations x construction path {TimeoutSettings::new, Default, serde_json deserialisation, clap \
          flags (a harness-side Parser flattening TimeoutSettings; second-granularity values only)}: a zero duration must be \
          rejected (InvalidInput / deserialisation error / clap error) on every path. Every configuration accepted by `new` is \
-         then used for a query through every protocol entry point that takes timeout settings (and every combination of extra request settings — host name, protocol version, gather toggles, app-id check — through the generic dispatch of nine games), once against the valid \
+         then used for a query through every protocol entry point that takes timeout settings (and every combination of extra request settings — host name, protocol version, gather toggles, app-id check — through the generic dispatch of nine games; the HTTP game Eco through its module entry point and the generic dispatch over real loopback TCP, against a serving and a closed port), once against the valid \
          reference server and, for retries <= 2, once against a silent one: no panic. The hook keeps the real apply_timeout \
          running on a real socket object. distinct_nontrivial = distinct (configuration, outcome class) pairs"
             .into()
@@ -241,6 +244,59 @@ impl Prop for C18 {
                     }
                 }
                 ctx.sample(serde_json::json!({"case": label, "combinations": n}));
+            }
+            What::Eco => {
+                let ip = std::net::IpAddr::V4(std::net::Ipv4Addr::LOCALHOST);
+                let body = super::eco::gen_eco(&mut Chooser::new(&[])).json().into_bytes();
+                let game = gamedig::GAMES.get("eco").unwrap();
+                let mut n = 0u64;
+                for r in DURS {
+                    for w in DURS {
+                        for c in DURS {
+                            for retries in RETRIES {
+                                let Ok(ts) = TimeoutSettings::new(r, w, c, retries) else { continue };
+                                let cfg = format!("read={} write={} connect={} retries={retries}", dur_name(r), dur_name(w), dur_name(c));
+                                for (path, refused) in [("module", false), ("module", true), ("generic", false), ("generic", true)] {
+                                    n += 1;
+                                    let key = vec![DURS.iter().position(|x| *x == r).unwrap() as u32, DURS.iter().position(|x| *x == w).unwrap() as u32, DURS.iter().position(|x| *x == c).unwrap() as u32, RETRIES.iter().position(|x| *x == retries).unwrap() as u32, refused as u32, (path == "generic") as u32];
+                                    if matches!(&ctx.replay, Some(rp) if *rp != key) {
+                                        continue;
+                                    }
+                                    crate::crumb::mark(ctx.case, &key);
+                                    let port = if refused { closed_port(ip, true).unwrap_or(9) } else { super::eco::serve_once(ip, body.clone(), 0).0 };
+                                    let res = run_pure(|| {
+                                        if path == "module" {
+                                            gamedig::games::eco::query_with_timeout(&ip, Some(port), &Some(ts)).map(|_| ()).map_err(|e| e.kind)
+                                        } else {
+                                            gamedig::query_with_timeout_and_extra_settings(game, &ip, Some(port), Some(ts), None).map(|_| ()).map_err(|e| e.kind)
+                                        }
+                                    });
+                                    ctx.counters.evaluations += 1;
+                                    ctx.counters.states += 1;
+                                    ctx.counters.transitions += 1;
+                                    let class = match &res {
+                                        Ok(Ok(())) => "ok".to_string(),
+                                        Ok(Err(k)) => format!("err:{k:?}"),
+                                        Err(_) => "panic".to_string(),
+                                    };
+                                    ctx.distinct_key(&(cfg.clone(), path, refused, class));
+                                    if let Err((msg, loc)) = res {
+                                        let file = loc.rsplit_once(':').map_or(loc.as_str(), |p| p.0);
+                                        ctx.violation(
+                                            format!("accepted-settings-panic:{file}:{}", panic_kind(&msg)),
+                                            &key,
+                                            format!("{cfg} through the {path} entry point of eco against a {} port", if refused { "closed" } else { "serving" }),
+                                            format!("PANIC at {loc}: {msg}"),
+                                            "Ok or Err",
+                                            vec![],
+                                        );
+                                    }
+                                }
+                            }
+                        }
+                    }
+                }
+                ctx.sample(serde_json::json!({"case": label, "executions": n}));
             }
             What::Target(i) => {
                 let t = targets()[i].clone();
